@@ -133,7 +133,7 @@ pub fn read(file: &[u8]) -> Result<Vec<Texture>> {
         let mut filename_buffer: Vec<u8> = Vec::new();
         reader.read_until(0x0, &mut filename_buffer)?;
         filename_buffer.pop(); // Get rid of the null terminator.
-        let (result, _, errors) = UTF_8.decode(filename_buffer.as_slice());
+        let (result, errors) = UTF_8.decode_without_bom_handling(filename_buffer.as_slice());
         if errors {
             return Err(TextureParseError::BadText);
         }
